@@ -544,3 +544,7 @@ fn render_search_text(path: &NodePath, context: impl GraphContext) -> String {
         .collect_vec()
         .join(" ")
 }
+
+#[cfg(kani)]
+#[path = "/verif/kani/graph.rs"]
+mod verif_kani;
